@@ -127,7 +127,7 @@ CaseResult run_v(Tape &t)
     in_closed = true;
     log.push_back("parent closes stdin at once");
   }
-  bool cls_zero_buf = false, cls_big = false, cls_interleaved = false, cls_input = in_mode == 1 && input_size > 0;
+  bool cls_zero_buf = false, cls_big = false, cls_interleaved = false, cls_input = in_mode == 1 && input_size > 0, cls_interrupted = false;
   bool wrote[3] = { false, false, false };
   static std::vector<uint8_t> buf(1 << 20);
   static std::vector<uint8_t> wbuf(1 << 16);
@@ -152,7 +152,19 @@ CaseResult run_v(Tape &t)
     uint64_t pending = piped && !sc[s].parent_closed && !sc[s].epipe ? written(s) - sc[s].delivered : 0;
     if (piped && !sc[s].parent_closed && !sc[s].epipe && !nonblocking && pending == 0 && !far_closed(s) && bs > 0) return true;  // would wait for ever: not issued
     size_t ep0 = w.episodes.size();
+    // now and then the read() itself is interrupted: nothing may be lost or ended by that
+    unsigned fired0 = vs_nth_fired();
+    bool armed = !final_drain && bs > 0 && t.chance(1, 12);
+    if (armed) vs_fail_nth(VS_READ, 0);
     int r = reproc_read(ch.p, rs, buf.data(), bs);
+    if (armed) {
+      vs_fail_nth(-1, -1);
+      if (vs_nth_fired() != fired0 && r == -EINTR) {
+        cls_interrupted = true;
+        log.push_back(std::string("read(") + (s == 1 ? "out" : "err") + "," + std::to_string(bs) + ")=EINTR");
+        return true;
+      }
+    }
     if (bs == 0) cls_zero_buf = true;
     log.push_back(std::string("read(") + (s == 1 ? "out" : "err") + "," + std::to_string(bs) + ")=" + std::to_string(r));
     (void) ep0;
@@ -267,7 +279,18 @@ CaseResult run_v(Tape &t)
         bool reader_gone = !k.alive || k.closed[0];
         if (!nonblocking && !reader_gone && in_pipe + n > 60000) break;  // a blocking write must not wait for ever
         for (uint64_t i = 0; i < n; i++) wbuf[i] = pup_pattern(0, in_accepted + i);
+        unsigned fired0 = vs_nth_fired();
+        bool armed = n > 0 && t.chance(1, 12);
+        if (armed) vs_fail_nth(VS_WRITE, 0);
         int r = reproc_write(ch.p, wbuf.data(), (size_t) n);
+        if (armed) {
+          vs_fail_nth(-1, -1);
+          if (vs_nth_fired() != fired0 && r == -EINTR) {
+            cls_interrupted = true;
+            log.push_back("write(" + std::to_string(n) + ")=EINTR");
+            break;
+          }
+        }
         log.push_back("write(" + std::to_string(n) + ")=" + std::to_string(r));
         if (r > 0) {
           if ((uint64_t) r > n) fail("write-overrun", "write returned more than was offered");
@@ -379,6 +402,7 @@ CaseResult run_v(Tape &t)
   if (cls_zero_buf) res.cls("zero-size-buffer");
   if (cls_interleaved) res.cls("stdout-and-stderr-interleaved");
   if (cls_input) res.cls("startup-input");
+  if (cls_interrupted) res.cls("interrupted-read-or-write");
   if (err_mode == 1) res.cls("stderr-to-stdout");
   res.cls(nonblocking ? "nonblocking" : "blocking");
   uint64_t h = (uint64_t) nonblocking | (uint64_t) err_mode << 1 | (uint64_t) in_mode << 3;
